@@ -13,6 +13,7 @@ import (
 	"os"
 	"os/exec"
 	"path/filepath"
+	"runtime"
 	"runtime/debug"
 	"sort"
 	"strconv"
@@ -63,6 +64,11 @@ type task struct {
 	opIdx   int
 	lineCnt int
 	seen    uint64 // poll-style reads: entries consumed so far through this handle
+	// node style: this task shares its handle with another task (a node's poller reads
+	// through the handle its API goroutine sends through). Such a task may have to wait
+	// for an in-process lock of the handle that its parked sibling holds.
+	shared   bool
+	lockWait bool
 }
 
 // childProc is a writer running in another OS process (the same test binary in
@@ -426,6 +432,10 @@ func (w *world) runTask(t *task) {
 				out.Tags = append(out.Tags, tagOf(m))
 			}
 			w.record(t.id, logInput{From: from}, out, call)
+			if err != nil {
+				// the log is intact (every entry was written whole): a reader has no reason to fail
+				w.fail("read-returned-an-error", fmt.Sprintf("reader task %d: GetMessages(%d): %v", t.id, from, err))
+			}
 			if err == nil {
 				w.checkRead(ms, from, fmt.Sprintf("reader task %d", t.id))
 				if o.poll {
@@ -599,7 +609,7 @@ func sizeClass(tp *sim.Tape) int {
 // RunOne is one simulated run of the board engine.
 func RunOne(t *testing.T, scenario, tier string, tape *sim.Tape, keepAll bool) (res sim.RunResult) {
 	res.Seed = tape.Seed
-	w := &world{tp: tape, log: sim.NewEventLog(), stats: sim.NewStats(), byGid: map[int64]*task{}, event: make(chan *task), sent: map[string]bool{}}
+	w := &world{tp: tape, log: sim.NewEventLog(), stats: sim.NewStats(), byGid: map[int64]*task{}, event: make(chan *task, 256), sent: map[string]bool{}}
 	w.log.All = keepAll
 	defer func() {
 		file_storage.SimYield = nil
@@ -703,6 +713,25 @@ func (w *world) run(tier string) (bool, interface{}) {
 		}
 		w.tasks = append(w.tasks, tk)
 	}
+	// node style: a node reads (its poller) through the very handle it sends through
+	// (its API goroutine); the writers still append through separate handles
+	nodeStyle := tp.Bool(1, 2, "nodeStyle")
+	if nodeStyle {
+		k := 1 + tp.Choose(2, "sharedHandles")
+		for i := 0; i < k && i < nw; i++ {
+			base := w.tasks[i]
+			if base.child != nil {
+				continue
+			}
+			base.shared = true
+			rt := &task{id: len(w.tasks), h: base.h, grant: make(chan struct{}), shared: true}
+			for j := 0; j < 2+tp.Choose(5, "pollerReads"); j++ {
+				rt.ops = append(rt.ops, op{kind: opRead, poll: true})
+			}
+			w.tasks = append(w.tasks, rt)
+			w.stats.Fault("node-style-shared-handle")
+		}
+	}
 	for k := 0; k < nops; k++ {
 		t := w.tasks[tp.Choose(nw, "whichTask")]
 		if tp.Choose(4, "readOrSend") == 0 {
@@ -733,7 +762,7 @@ func (w *world) run(tier string) (bool, interface{}) {
 		var runnable []*task
 		blockedOnLock := 0
 		for _, t := range w.tasks {
-			if t.done || t.parked == "" {
+			if t.done || t.lockWait || t.parked == "" {
 				continue
 			}
 			if t.parked == "send.beforeLock" || (t.child != nil && t.parked == "op.start" && t.nextIsSend()) {
@@ -763,7 +792,16 @@ func (w *world) run(tier string) (bool, interface{}) {
 		steps++
 		w.tick()
 		t.grant <- struct{}{}
-		ev := waitEvent(w.event)
+		ev, blocked := w.await(t)
+		if blocked {
+			// the task waits for a lock of its handle that its parked sibling holds: it
+			// is out of the running until the sibling has moved on
+			t.lockWait = true
+			w.log.Add("w%d waits for its handle", t.id)
+			w.stats.Probe("task-waits-for-its-shared-handle")
+			continue
+		}
+		w.settleLockWaiters()
 		if ev == nil {
 			// a writer that blocks on something the scheduler's lock-file probe cannot see (an
 			// additional in-process lock held by a parked writer, say) is a limit of this
@@ -829,6 +867,98 @@ func (w *world) run(tier string) (bool, interface{}) {
 	}
 	return len(w.hist) >= 2, map[string]interface{}{"writers": nw, "ops": len(w.hist), "entries": len(w.lastFull), "max_message_bytes": maxSize,
 		"preemptions_inside_critical_section": preempt, "scheduler_steps": steps, "linearizability": lin}
+}
+
+// goroutineBlockedOnLock tells whether the goroutine waits for a sync primitive.
+func goroutineBlockedOnLock(gid int64) bool {
+	buf := make([]byte, 1<<20)
+	n := runtime.Stack(buf, true)
+	marker := []byte(fmt.Sprintf("goroutine %d [", gid))
+	i := bytes.Index(buf[:n], marker)
+	if i < 0 {
+		return false
+	}
+	rest := buf[i+len(marker) : n]
+	j := bytes.IndexByte(rest, ']')
+	if j < 0 {
+		return false
+	}
+	st := string(rest[:j])
+	return strings.Contains(st, "Mutex") || strings.Contains(st, "semacquire") || strings.Contains(st, "sync.Cond")
+}
+
+// await waits for the granted task to reach its next yield or its end. A task that
+// shares its handle may instead come to rest on an in-process lock of the handle
+// (three consecutive observations); that is reported as blocked. Events of tasks
+// that were waiting for such a lock and got it are taken note of on the way.
+func (w *world) await(t *task) (*task, bool) {
+	deadline := time.Now().Add(5 * time.Second)
+	obs := 0
+	for i := 1; ; i++ {
+		select {
+		case ev := <-w.event:
+			if ev == t {
+				return ev, false
+			}
+			ev.lockWait = false
+			continue
+		default:
+		}
+		if i%400 == 0 {
+			if t.shared && goroutineBlockedOnLock(t.gid) {
+				obs++
+				if obs >= 3 {
+					return nil, true
+				}
+			} else {
+				obs = 0
+			}
+			if time.Now().After(deadline) {
+				return nil, false
+			}
+			time.Sleep(50 * time.Microsecond)
+		}
+		runtime.Gosched()
+	}
+}
+
+// settleLockWaiters: after every step each task that waits for its handle either
+// has got it and reached its next yield, or is seen waiting again; only then is
+// the set of runnable tasks computed (so that it does not depend on timing).
+func (w *world) settleLockWaiters() {
+	for _, t := range w.tasks {
+		if !t.lockWait {
+			continue
+		}
+		obs := 0
+		deadline := time.Now().Add(5 * time.Second)
+		for i := 1; t.lockWait; i++ {
+			select {
+			case ev := <-w.event:
+				ev.lockWait = false
+				continue
+			default:
+			}
+			if i%400 == 0 {
+				if goroutineBlockedOnLock(t.gid) {
+					obs++
+					if obs >= 3 {
+						break
+					}
+				} else {
+					obs = 0
+				}
+				if time.Now().After(deadline) {
+					panic(fmt.Sprintf("task %d neither got its handle nor waits for it", t.id))
+				}
+				time.Sleep(50 * time.Microsecond)
+			}
+			runtime.Gosched()
+			if obs >= 3 {
+				break
+			}
+		}
+	}
 }
 
 func waitEvent(ch chan *task) *task {
